@@ -176,11 +176,16 @@ def run():
             raise MachineryError('decoder calibration failed: %s %s on %s' % (clause, kind, oid))
         corpus = 'system' if cid.startswith('sys-') else 'generated'
         sig = dict(clause=clause, kind=kind, role=role)
+        if kind in ('gen_constant', 'api_constant') and o['found']:      # which basic type the constant has
+            t0 = o['g']['type'][0]
+            sig['type'] = tlabs.TAGS[t0['tag']] if t0['simple'] and t0['tag'] < len(tlabs.TAGS) else 'complex'
         text = '%s [%s]: %s %s of %s (%s)\n  blob (decoded): %s\n  reported: %s' % (
             clause, role, kind, path, cid, corpus, _brief(o['g'], clause), _brief(o['b'], clause))
         rp = dict(R.cases.get(cid, {}))
         rp.update(path_in_typelib=path, clause=clause)
         ck.violation(sig, text, rp)
+    # every distinct failing input class (common.finish prints and stores the first 25 only)
+    ck.cov['violation_classes'] = sorted({json.dumps(s, sort_keys=True) for s, _, _ in ck.violations})
     if not replay:
         core = ['ApiName', 'ApiOffset', 'ApiAttrIter', 'ApiAttrByName', 'ApiFnFlags', 'ApiFnProperty', 'ApiArgDirection', 'ApiArgType',
                 'ApiFieldFlags', 'ApiPropFlags', 'ApiPropSetter', 'ApiConstValue', 'ApiValue', 'ApiCounts', 'ApiFind', 'ApiInterfaces',
